@@ -15,6 +15,19 @@ VERIF = os.path.dirname(os.path.dirname(os.path.abspath(__file__)))
 REPO = os.environ.get("FSVERIF_REPO", "/repo")
 SCRATCH = os.environ.get("VERIF_SCRATCH", "/var/tmp")
 
+CHECK_TIMEOUT = 1200      # seconds per check: a runaway analysis is reported, not waited for
+
+
+def _run_check(cmd, **kw):
+    try:
+        return subprocess.run(cmd, **kw)
+    except subprocess.TimeoutExpired:
+        class _R:
+            returncode = 124
+            stdout = "ANALYSIS-BROKEN: the check did not finish within %d s\n" % CHECK_TIMEOUT
+            stderr = ""
+        return _R()
+
 
 def run_patch(path, kind):
     name = os.path.basename(path)
@@ -34,8 +47,8 @@ def run_patch(path, kind):
         env = dict(os.environ, FSVERIF_REPO=d, FSVERIF_CACHE=os.path.join(d, ".cache"),
                    FSVERIF_EVIDENCE=os.path.join(d, "evidence"))
         for pid in ids:
-            r = subprocess.run([os.path.join(VERIF, "check"), pid], capture_output=True, text=True,
-                               env=env, cwd=VERIF)
+            r = _run_check([os.path.join(VERIF, "check"), pid], capture_output=True, text=True,
+                               env=env, cwd=VERIF, timeout=CHECK_TIMEOUT)
             first = [l for l in r.stdout.splitlines() if l.startswith("  rule") or l.startswith("ANALYSIS")]
             res[pid] = (r.returncode, first[0][:220] if first else "")
         if kind == "mutants":
